@@ -97,6 +97,8 @@ class LapackStub:
         self.log = []
 
     def dgeqrf(self, a, **kw):
+        if any(kw.get(k) for k in kw):
+            raise core.Unsupported(f"dgeqrf called with {kw}: outside the contract that is encoded (the input matrix is not modified)")
         a = np.asarray(a)
         m, n = len(self.h.Q), len(self.h.R)
         if a.shape != (m, n) or not all(core.poly_zero(zreal(a[i, j]), self.h.A[i][j]) for i in range(m) for j in range(n)):
@@ -331,11 +333,19 @@ def replay(data):
             return False, "dispatch as documented"
     rng = np.random.default_rng(1)
     m, n = cfg["m"], cfg["n"]
-    for _ in range(20):
+    for trial in range(20):
         A = rng.normal(size=(m, n))
+        if cfg["kind"] == "nnls" and trial % 3 == 0:
+            A[:, 0] = -np.abs(A[:, 0])  # a column that is negative everywhere
         y = rng.normal(size=m)
+        fn_ = residual_variable_projection if cfg["kind"] == "vp" else residual_nnls
         try:
-            clp, res = (residual_variable_projection if cfg["kind"] == "vp" else residual_nnls)(A.copy(), y.copy())
+            Ain = np.asfortranarray(A) if trial % 2 else np.ascontiguousarray(A)
+            yin = y.copy()
+            clp, res = fn_(Ain, yin)
+            if not (np.array_equal(Ain, A) and np.array_equal(yin, y)):
+                return True, (f"{cfg['name']}: the {'Fortran' if trial % 2 else 'C'}-ordered input matrix / data were modified by the call "
+                              f"(the same matrix is reused for every global index)")
         except Exception as ex:  # noqa: BLE001
             return True, f"{cfg['name']}: raised {type(ex).__name__}: {ex}"
         clp, res = np.asarray(clp), np.asarray(res)
